@@ -2,6 +2,7 @@
 use crate::accumulator::accumulated_map::InputAccumulatedValues;
 use crate::cycle::{CycleHeads, CycleRecoveryStrategy, ProvisionalStatus};
 use crate::database::RawDatabase;
+use crate::function::eviction::EvictionPolicy;
 use crate::function::memo::{ErasedMemo, MemoHeader, TryClaimCycleHeadsIter, TryClaimHeadsResult};
 use crate::function::sync::{ClaimGuard, ClaimResult};
 use crate::function::{Configuration, IngredientImpl, Reentrancy, SyncTable};
@@ -249,6 +250,8 @@ where
                 }
 
                 let memo = self.execute(db, claim_guard, Some(old_memo))?;
+                // The recomputed value is cached: make sure the eviction policy knows about it.
+                self.eviction.record_use(database_key_index.key_index());
                 let changed_at = memo.header.revisions.changed_at;
 
                 // Always assume that a provisional value has changed.
